@@ -15,7 +15,7 @@ try:
     p = subprocess.run(["diff", "-u", "a/" + rel, "b/" + rel], cwd=d, stdout=subprocess.PIPE, text=True).stdout
 finally:
     shutil.rmtree(d)
-out = os.path.join(V, "selftest", "mutants", name)
+out = os.path.join(V, "selftest", os.environ.get("MUT_KIND", "mutants"), name)
 os.makedirs(out, exist_ok=True)
 open(os.path.join(out, "patch.diff"), "w").write(p)
 json.dump({"property": prop, "what": what}, open(os.path.join(out, "meta.json"), "w"))
